@@ -65,6 +65,33 @@ def sweep_scenario(run_seed, tier):
     return sc
 
 
+def coldproc_scenario(run_seed, tier):
+    """One scenario = one cold-process sweep (first build, optionally followed by the first evaluation of an
+    unseen-level frame under a lenient mode) over a stride sample of crash points."""
+    g = Gen(run_seed, "C07", tier, force={"cfg": {"with_faults": False, "nan_train": False},
+                                          "families_add": ["dotted", "catstr", "group", "center", "poly"]})
+    r = random.Random(mix(run_seed, "coldproc"))
+    cfg = g.swarm()
+    clients = [{"c0": 0.5, "depth": r.choice([0, 1]), "extra": r.choice([None, {"ec": 2.0}])}]
+    g._has_ec = bool(clients[0]["extra"])
+    tid = g.new_frame_id("T")
+    g.frames[tid] = g.train_frame(cfg, 0)
+    fm = g.formula(cfg)
+    op = {"op": "sweep_coldproc", "client": 0, "formula": fm["text"], "frame": tid, "na_action": "drop", "fm": fm,
+          "mode": r.choice(["line", "call"]), "stride": r.choice([3, 5, 7, 11]), "offset": r.randrange(11),
+          "max_points": 300 if tier == "thorough" else 100, "abort": "build", "fault": None, "n": 0}
+    if r.random() < 0.6:
+        part = "group" if fm["groups"] and r.random() < 0.5 else "common"
+        clean = g.shape_new_frame(g.fresh_frame(g.frames[tid], fm, n=r.choice([2, 4, 6])), fm)
+        got = g.pollute(clean, fm, part)
+        if got is not None:
+            fid = g.new_frame_id("N")
+            g.frames[fid] = got[0]
+            op.update({"eval_frame": fid, "part": part, "mode_value": r.choice(["warning", "silent"])})
+    return {"run_seed": run_seed, "property": "C07", "tier": tier, "cfg": {"coldproc": True}, "clients": clients,
+            "frames": g.frames, "ops": [op], "sweep": True}
+
+
 # --------------------------------------------------------------------------- micro-pool
 def micropool(pool_seed, max_len):
     """Yields scenarios: all sequences of length <= max_len over the alphabet,
